@@ -80,6 +80,30 @@ fn significant(toks: &[&[u8]]) -> Vec<usize> {
     toks.iter().enumerate().filter(|(_, t)| !t.is_empty() && !matches!(t[0], b' ' | b'\t' | b'\r' | b'\n' | b';')).map(|(i, _)| i).collect()
 }
 
+/// A numeric literal of more than 16 bits. Mutations never *place* such a
+/// token at a new position: magnitude-driven resource exhaustion is another
+/// property's subject (C19), and a 2-gigabit slice is slow, not wrong.
+pub fn is_big_number(tok: &[u8]) -> bool {
+    if tok.is_empty() || !tok[0].is_ascii_digit() {
+        return false;
+    }
+    let t: Vec<u8> = tok.iter().copied().filter(|b| *b != b'_').collect();
+    let s = String::from_utf8_lossy(&t).to_lowercase();
+    let v = if let Some(h) = s.strip_prefix("0x") {
+        u64::from_str_radix(h, 16)
+    } else if let Some(b) = s.strip_prefix("0b") {
+        u64::from_str_radix(b, 2)
+    } else if let Some(o) = s.strip_prefix("0o") {
+        u64::from_str_radix(o, 8)
+    } else {
+        s.parse::<u64>()
+    };
+    match v {
+        Ok(n) => n > 0xffff,
+        Err(_) => t.len() > 6,
+    }
+}
+
 pub fn draw(rng: &mut Rng, src: &[u8], donors: &[Vec<u8>]) -> Mutation {
     let toks = tokens(src);
     let sig = significant(&toks);
@@ -91,8 +115,20 @@ pub fn draw(rng: &mut Rng, src: &[u8], donors: &[Vec<u8>]) -> Mutation {
         }
         return match k {
             0..=14 => Mutation::DeleteToken(*rng.pick(&sig)),
-            15..=24 => Mutation::DuplicateToken(*rng.pick(&sig)),
-            25..=34 => Mutation::SwapTokens(*rng.pick(&sig), *rng.pick(&sig)),
+            15..=24 => {
+                let i = *rng.pick(&sig);
+                if is_big_number(toks[i]) {
+                    continue;
+                }
+                Mutation::DuplicateToken(i)
+            }
+            25..=34 => {
+                let (a, b) = (*rng.pick(&sig), *rng.pick(&sig));
+                if is_big_number(toks[a]) || is_big_number(toks[b]) {
+                    continue;
+                }
+                Mutation::SwapTokens(a, b)
+            }
             35..=59 => {
                 if donors.is_empty() {
                     continue;
@@ -104,12 +140,22 @@ pub fn draw(rng: &mut Rng, src: &[u8], donors: &[Vec<u8>]) -> Mutation {
                     continue;
                 }
                 let t = dt[*rng.pick(&ds)];
+                if is_big_number(t) {
+                    continue;
+                }
                 Mutation::Transplant { at: *rng.pick(&sig), text: String::from_utf8_lossy(t).to_string() }
             }
             60..=79 => Mutation::InsertBytes { at: rng.below(src.len() + 1), bytes: rng.pick(NON_ASCII).to_vec() },
             80..=84 => Mutation::Truncate(rng.below(src.len() + 1)),
             85..=89 => Mutation::DeleteLine(rng.below(nlines)),
-            90..=94 => Mutation::DuplicateLine(rng.below(nlines)),
+            90..=94 => {
+                let i = rng.below(nlines);
+                let line = src.split_inclusive(|b| *b == b'\n').nth(i).unwrap_or(&[]);
+                if tokens(line).iter().any(|t| is_big_number(t)) {
+                    continue;
+                }
+                Mutation::DuplicateLine(i)
+            }
             _ => Mutation::SwapLines(rng.below(nlines), rng.below(nlines)),
         };
     }
